@@ -2,7 +2,16 @@
    byte queue's reported length is the number of bytes that can still be read.
 
    Statements only; each is closed by a lemma proved in IO/IOQueueProofs.v, IO/IOQueueFrames.v,
-   IO/TermIOProofs.v.  `A` is the byte type (the code never looks inside a byte).
+   IO/TermIOProofs.v, IO/TermIOLive.v, IO/FifoSpecProofs.v, IO/FrameSpecProofs.v.  `A` is the byte
+   type (the code never looks inside a byte).
+
+   Counted (16 theorems): queue - C16_queue_history, _queue_len_readable, _queue_read_progress,
+   _queue_observers, _queue_drop, _queue_frames, C16_flush_idempotent; terminal object - C16_order,
+   _order_no_drop, _drained, _frames, _frames_flush_delimited, _render_loop_schema, _progress;
+   specification sides - C16_spec_accepts_model, C16_frame_spec_accepts_model (drained runs).
+   Not counted: the lemmas C16_length_defect_as_found / C16_flush_defect_as_found (the functions
+   as found, before 1668a13 / 1688aac), the Check pins and the examples at the end.
+   Model = the code on /repo main (fixes 1668a13, 1688aac, 5a0ca21, e293376, 93ac8da included).
 
    Vocabulary
      exec q ops R X      run a history of queue calls from q; R collects every byte handed out
